@@ -268,7 +268,31 @@ class C07(Prop):
              ['sleep', 5000], ['failnext', 'ports'], ['val', 'v1', 7], ['sleep', 9000], ['disarm']],
             []])
         c9 = dict(c8, name='one failing write of the save loop (redis)', driver='redis')
-        return [c1, c2, c3, c4, c5, c6, c7, c8, c9]
+        c10 = dict(base, name='choices together with min/max/step', phases=[
+            [['add', {'id': 'v1', 'type': 'number', 'min': 0, 'max': 10, 'step': 1,
+                      'choices': [{'value': 1, 'display_name': 'one'}, {'value': 2}]}],
+             ['add', {'id': 'v2', 'type': 'number', 'max': 100, 'integer': True, 'choices': [{'value': 5}, {'value': 7}]}]],
+            []])
+        rem = {'10.1.0.1': self._remote('garage'), '10.1.0.2': self._remote('garage-door'), '10.1.0.3': self._remote('attic')}
+        c11 = dict(base, name='slave whose name is a prefix of another one is deleted', remotes=rem, phases=[
+            [['sadd', {'scheme': 'http', 'host': h, 'port': 80, 'path': '/', 'admin_password': 'x', 'poll_interval': 0,
+                       'listen_enabled': False}] for h in rem] +
+            [['patch', 'garage-door.temp', {'tag': 'sec "1"'}], ['patch', 'attic.sw', {'tag': 'a'}]],
+            [['sdel', 'garage']],
+            []])
+        # transforms that are not mutually inverse (the write transform of the same PATCH is refused): the persisted
+        # value drifts by the read transform at every restart - known finding C07-non-inverse-transforms-drift
+        c12 = dict(base, name='persisted value under a read transform without write transform', driver='redis', phases=[
+            [['add', {'id': 'v1', 'type': 'number'}],
+             ['patch', 'v1', {'expression': '$lp2\t', 'transform_write': 'ADD($v9, 1)', 'transform_read': 'ADD(10,$)',
+                              'display_name': 'd'}],
+             ['patch', 'v1', {'enabled': True, 'persisted': True, 'expression': ''}],
+             ['val', 'v1', 1]],
+            []],
+            canon=[['e', '$lp2\t', '$lp2'], ['e', '$lp2', '$lp2'], ['w', 'ADD($v9, 1)', None],
+                   ['r', 'ADD(10,$)', 'ADD(10, $)'], ['r', 'ADD(10, $)', 'ADD(10, $)']],
+            xf=[['ADD(10, $)', 'add', 10]])
+        return [c1, c2, c3, c4, c5, c6, c7, c8, c9, c10, c11, c12]
 
     @staticmethod
     def _slave_doc(name, k, attrs):
@@ -276,7 +300,7 @@ class C07(Prop):
                 'admin_password_hash': hashlib.sha256(name.encode()).hexdigest(), 'poll_interval': 10 * k,
                 'listen_enabled': False, 'last_sync': -1, 'attrs': attrs, 'provisioning': []}
 
-    def gen(self, rng, tier, vids=None):
+    def gen(self, rng, tier, vids=None, remotes=True):
         VIDS = vids or globals()['VIDS']
         driver = 'redis' if rng.random() < 0.3 else 'json'
         strings = SPECIAL
@@ -335,8 +359,16 @@ class C07(Prop):
                             canon.append([kind, x[0], x[1]])
                             canon.append([kind, x[1], x[1]])
                             xf.append([x[1], x[2][0], x[2][1]])
-                        a['transform_write'] = tw[0]
-                        a['transform_read'] = tr[0]
+                        q = rng.random()
+                        if q < 0.08:
+                            a['transform_read'] = tr[0]          # a read transform only: not mutually inverse
+                            a['transform_write'] = ''
+                        elif q < 0.12:
+                            a['transform_write'] = tw[0]         # a write transform only
+                            a['transform_read'] = ''
+                        else:
+                            a['transform_write'] = tw[0]
+                            a['transform_read'] = tr[0]
             return a
 
         for ph in range(nphases):
@@ -349,17 +381,19 @@ class C07(Prop):
                     typ = rng.choice(['number', 'number', 'boolean'])
                     d = {'id': pid, 'type': typ}
                     if typ == 'number':
-                        k = rng.random()
-                        if k < 0.3:
-                            d.update(min=rng.choice([0, -10]), max=rng.choice([50, 100]))
-                        if k < 0.2:
-                            d['integer'] = True
-                        elif k < 0.4:
-                            d['integer'] = rng.random() < 0.5
-                        if 0.5 < k < 0.6:
+                        # every combination of the definition fields (the schema admits choices next to a range/step)
+                        if rng.random() < 0.35:
+                            d['min'] = rng.choice([0, -10])
+                        if rng.random() < 0.35:
+                            d['max'] = rng.choice([50, 100])
+                        if rng.random() < 0.3:
+                            d['integer'] = rng.random() < 0.6
+                        if rng.random() < 0.2:
+                            d['step'] = rng.choice([1, 2, 5])
+                        if rng.random() < 0.25:
                             d['choices'] = [{'value': 1, 'display_name': s()[:64]}, {'value': 2}, {'value': 5}]
-                        if 0.6 < k < 0.7:
-                            d.update(min=0, step=2)
+                    elif rng.random() < 0.1:
+                        d['choices'] = [{'value': True, 'display_name': 'on'}, {'value': False}]
                     ops.append(['add', d])
                     if pid not in live:
                         live[pid] = typ
@@ -420,7 +454,39 @@ class C07(Prop):
             if ph < nphases - 1:
                 ops.extend(self._tail(rng, s, live, defs, slaves, VIDS))
             phases.append(ops)
-        return {'driver': driver, 'canon': canon, 'xf': xf, 'phases': phases}
+        case = {'driver': driver, 'canon': canon, 'xf': xf, 'phases': phases}
+        if remotes and rng.random() < 0.15:
+            self._add_remote_slaves(rng, case)
+        return case
+
+    @staticmethod
+    def _remote(name):
+        return {'device': {'name': name, 'display_name': name.upper(), 'version': '1.0', 'api_version': '1.0',
+                           'vendor': 'acme/sensor', 'flags': ['expressions'], 'uptime': 10},
+                'ports': [{'id': 'temp', 'display_name': 'T', 'type': 'number', 'unit': 'C', 'writable': False,
+                           'enabled': True, 'value': 12},
+                          {'id': 'sw', 'display_name': 'S', 'type': 'boolean', 'writable': True, 'enabled': True,
+                           'value': False}]}
+
+    def _add_remote_slaves(self, rng, case):
+        """permanently offline slave devices (added while reachable, no polling/listening: the hub lives on what it has
+        persisted about them) with ports; the name of one is a proper prefix of another's; one of them is deleted"""
+        short, long_ = rng.choice([('garage', 'garage-door'), ('gar', 'gar_2'), ('s1', 's12'), ('pump', 'pump-x1')])
+        names = [short, long_, 'attic']
+        rng.shuffle(names)
+        case['remotes'] = {f'10.1.0.{i + 1}': self._remote(n) for i, n in enumerate(names)}
+        # PUT /devices would drop them again
+        case['phases'] = [[op for op in ops if op[0] != 'sput'] for ops in case['phases']]
+        pre = [['sadd', {'scheme': 'http', 'host': h, 'port': 80, 'path': '/', 'admin_password': 'x', 'poll_interval': 0,
+                         'listen_enabled': False}] for h in case['remotes']]
+        for n in names:
+            for pid in ('temp', 'sw'):
+                if rng.random() < 0.6:
+                    pre.append(['patch', f'{n}.{pid}', {'tag': rng.choice(['t', 'sec "1"', 'x' * 20])}])
+        victim = rng.choice([short, short, short, long_, 'attic'])
+        k = rng.randrange(len(case['phases']) - 1)
+        case['phases'][0] = pre + case['phases'][0]
+        case['phases'][k] = case['phases'][k] + [['sdel', victim]]
 
     def _tail(self, rng, s, live, defs, slaves, VIDS):
         """what happens right before a restart: (a) one storage write of the save loop fails once (transient error) and
@@ -496,8 +562,12 @@ class C07(Prop):
                         yield dict(case, phases=ph[:i] + [ops[:j] + [['patch', op[1], a]] + ops[j + 1:]] + ph[i + 1:])
 
     # ------------------------------------------------------------------------------------------ real side
-    def _boot(self, wd, persist, ops, k):
+    def _boot(self, wd, persist, ops, k, remotes=None):
         spec = {'persist': persist, 'static_ports': STATIC, 'slaves': True, 'ops': ops}
+        if remotes:
+            # the simulated devices answer only in a boot that adds one; afterwards they are unreachable
+            spec['remotes'] = remotes
+            spec['remotes_up'] = any(op[0] == 'sadd' for op in ops)
         sp, op = os.path.join(wd, f'spec{k}.json'), os.path.join(wd, f'out{k}.json')
         with open(sp, 'w') as f:
             json.dump(spec, f)
@@ -618,6 +688,8 @@ class C07(Prop):
         """query the model for everything the real documents contain; return (model view, real view) comparable"""
         mv, rv = {'ports': {}, 'device': None, 'slaves': {}}, {'ports': {}, 'device': None, 'slaves': {}}
         for pid, p in docs_c['ports'].items():
+            if 'provisioning' in p:
+                continue                      # port of a (remote) slave device: not in the model
             rep = driver.ask(f'port {hx(pid)}')
             if rep == 'ok none':
                 mv['ports'][pid] = None
@@ -665,6 +737,8 @@ class C07(Prop):
             mv['device'][w] = hashlib.sha256(mh[2:-1].encode()).hexdigest()
             rv['device'][w] = hashes[w]
         for name, s in docs_c['devices'].items():
+            if s.get('enabled'):
+                continue                      # a slave added over the (simulated) network: not in the model
             rep = driver.ask(f'slave {hx(name)}')
             mv['slaves'][name] = rep
             attrs = ','.join(f'{n}={enc(v)}' for n, v in sorted(s.get('attrs', {}).items())) or '-'
@@ -674,6 +748,32 @@ class C07(Prop):
                                   f'poll={s["poll_interval"]} listen={1 if s["listen_enabled"] else 0} last={s["last_sync"]} '
                                   f'attrs={attrs} prov={prov}')
         return mv, rv
+
+    def _xf_texts(self, p):
+        tw, tr = p.get('transform_write') or '', p.get('transform_read') or ''
+        return self.canon_map.get(('w', tw)) or tw, self.canon_map.get(('r', tr)) or tr
+
+    def _inverse_ok(self, p, xf):
+        """the port's read transform undoes its write transform (or it has none)"""
+        tw, tr = self._xf_texts(p)
+        if not tw and not tr:
+            return True
+        if tw in xf and tr in xf:
+            a, b = xf[tw], xf[tr]
+            return (a[0] == 'add' and b[0] == 'add' and a[1] == -b[1]) or (a[0] == 'not' and b[0] == 'not')
+        return False
+
+    def _drifted(self, p, xf):
+        """value a persisted port reports after a restart: its last value through the write, then the read transform"""
+        tw, tr = self._xf_texts(p)
+        if (tw and tw not in xf) or (tr and tr not in xf):
+            return NotImplemented
+        v = p['value']
+        if tw:
+            v = apply_meaning(xf[tw], v)
+        if tr:
+            v = apply_meaning(xf[tr], v)
+        return v
 
     @staticmethod
     def _first_diff(a, b, path=''):
@@ -706,7 +806,7 @@ class C07(Prop):
         outs = []
         for k, ops in enumerate(case['phases']):
             try:
-                outs.append(self._boot(wd, persist, ops, k))
+                outs.append(self._boot(wd, persist, ops, k, case.get('remotes')))
             except BootFailed as e:
                 if k == 0:
                     raise
@@ -726,8 +826,34 @@ class C07(Prop):
             before = self._canon_docs(outs[k - 1]['final'], outs[k - 1]['final_vals'])
             after = self._canon_docs(outs[k]['boot'], outs[k]['boot_vals'])
             if fail is None and before != after:
-                fail = Failure('property', f'restart #{k}: the hub reports a different configuration after the restart: '
-                               + self._first_diff(before, after), real={'before': before, 'after': after})
+                # persisted ports whose read transform is not the inverse of their write transform: their value is
+                # expected to drift by read(write(v)) at the restart (known finding) - exactly that and nothing else
+                drift = {}
+                for pid, p in before['ports'].items():
+                    if 'value' in p and p['value'] is not None and p.get('enabled') and not self._inverse_ok(p, xf):
+                        exp = self._drifted(p, xf)
+                        if exp is not NotImplemented and exp != p['value']:
+                            drift[pid] = exp
+                b2 = json.loads(json.dumps(before))
+                a2 = json.loads(json.dumps(after))
+                for pid in drift:
+                    b2['ports'][pid].pop('value', None)
+                    if pid in a2['ports']:
+                        a2['ports'][pid].pop('value', None)
+                if b2 != a2 or not drift:
+                    fail = Failure('property', f'restart #{k}: the hub reports a different configuration after the restart: '
+                                   + self._first_diff(b2 if b2 != a2 else before, a2 if b2 != a2 else after),
+                                   real={'before': before, 'after': after})
+                else:
+                    bad = [pid for pid, exp in drift.items() if after['ports'][pid].get('value') not in (exp, before['ports'][pid]['value'])]
+                    pid = (bad or sorted(pid for pid in drift if after['ports'][pid].get('value') != before['ports'][pid]['value']))[0]
+                    p = before['ports'][pid]
+                    fail = Failure('property', f'restart #{k}: persisted port {pid} had value {p["value"]!r} before the restart and '
+                                   f'has {after["ports"][pid].get("value")!r} after it (transform_read {p.get("transform_read")!r}, '
+                                   f'transform_write {p.get("transform_write")!r} are not mutually inverse: the transformed value is '
+                                   f'persisted and re-applied through the write transform only)',
+                                   real={'before': p, 'after': after['ports'][pid]},
+                                   where='' if bad else 'non-inverse-transforms')
             if fail is None and outs[k - 1]['final_hashes'] != outs[k]['boot_hashes']:
                 fail = Failure('property', f'restart #{k}: password hashes differ after the restart')
             # deleted things must be absent
@@ -779,6 +905,7 @@ class C07(Prop):
                 tags.add('slaves')
 
         # ---------------- model
+        remote_names = [r['device']['name'] for r in (case.get('remotes') or {}).values()]
         mfail = None
         self._model_begin(case, driver, hist)
 
@@ -824,6 +951,8 @@ class C07(Prop):
             prevv = dict(out['boot_vals'])
             for op, res, vals in zip(case['phases'][k], out['op_results'], out['op_vals']):
                 line = self._model_op(op)
+                if op[0] in ('sdel', 'patch', 'val') and any(op[1] == n or op[1].startswith(n + '.') for n in remote_names):
+                    line = None               # remote slave devices and their ports are outside the model
                 tags.add('op:' + op[0])
                 if line is not None:
                     rep = driver.ask(line)
@@ -852,6 +981,10 @@ class C07(Prop):
                                                                        'results': [o['op_results'] for o in outs]}}
 
     def known_match(self, finding, case, failure):
+        if finding.get('id') == 'C07-non-inverse-transforms-drift':
+            # only the drift predicted for that class: a persisted, enabled port whose read transform is not the inverse
+            # of its write transform (one of them missing included) comes back with read(write(v))
+            return failure.kind == 'property' and failure.where == 'non-inverse-transforms'
         return False
 
 
